@@ -512,6 +512,7 @@ def l2_replay(cc, sdir, plan):
 
 # ------------------------------------------------------------------ level 3: scope tables (identifiers, tags) through compiled programs
 def l3_gen(seed, families):
+    funcs = []
     """a C program built from a history of scope operations; the reference model is a stack of dicts.
     Every declaration carries a unique small number; every probe compares the compiler's binding with the model's."""
     r = Rng(seed)
@@ -579,37 +580,89 @@ def l3_gen(seed, families):
     nfile = r.range(0, nnames)
     for n in r.sample(names, nfile):
         declare(n, True)
-    lines.append("int main(void) {")
-    ordinary.append({})
-    tags.append({})
-    nops = r.pick([10, 30, 80]) if not big else r.range(400, 1200)
-    for _ in range(nops):
-        x = r.below(10)
-        if x < 4:
-            declare(r.pick(names), False)
-        elif x < 7:
-            probe(r.pick(names))
-        elif x < 8 and depth < 5:
-            lines.append("  {")
-            ordinary.append({})
-            tags.append({})
-            depth += 1
-        elif x < 9 and depth > 0:
-            lines.append("  }")
-            ordinary.pop()
-            tags.pop()
-            depth -= 1
-            for n in r.sample(names, min(3, len(names))):
-                probe(n)   # what was shadowed must be visible again
-    for n in (names if not big else r.sample(names, 80)):
-        probe(n)
-    while depth > 0:
+    labels = set()
+    kinds = []      # 'block' or 'for' (a for statement opens two scopes: its declaration and its body)
+    decoys = [0]
+
+    def close_one():
+        k = kinds.pop()
         lines.append("  }")
         ordinary.pop()
         tags.pop()
-        depth -= 1
-        for n in r.sample(names, min(4, len(names))):
-            probe(n)
+        if k == "for":
+            ordinary.pop()
+            tags.pop()
+        for n in r.sample(names, min(3, len(names))):
+            probe(n)   # what was shadowed must be visible again
+
+    def body(nops):
+        for _ in range(nops):
+            x = r.below(13)
+            if x < 4:
+                declare(r.pick(names), False)
+            elif x < 7:
+                probe(r.pick(names))
+            elif x < 8 and len(kinds) < 5:
+                lines.append("  {")
+                ordinary.append({})
+                tags.append({})
+                kinds.append("block")
+            elif x < 9 and kinds:
+                close_one()
+            elif x < 10 and len(kinds) < 5:
+                # for-scope: the loop variable lives in a scope of its own around the body; the body runs once
+                n, v = r.pick(names), val()
+                lines.append("  for (int %s = %d; %s != %d; %s++) {" % (n, v, n, v + 1, n))
+                ordinary.append({n: ("var", v)})
+                tags.append({})
+                ordinary.append({})
+                tags.append({})
+                kinds.append("for")
+            elif x < 12:
+                # names in other name spaces must not disturb the tables: members, labels, an enum inside a struct
+                n = r.pick(names)
+                decoys[0] += 1
+                c = r.below(3)
+                if c == 0:
+                    lines.append("  struct D%d_%d { int %s; char %s_; } d%d_%d; d%d_%d.%s = 1;" % (seed % 1000, decoys[0], n, n, seed % 1000, decoys[0], seed % 1000, decoys[0], n))
+                elif c == 1 and (n, len(funcs)) not in labels:
+                    labels.add((n, len(funcs)))
+                    lines.append("  %s: ;" % n)
+                elif n not in ordinary[-1]:
+                    v = val()
+                    lines.append("  struct { enum { %s = %d } e; int x; } e%d_%d; e%d_%d.x = %s;" % (n, v, seed % 1000, decoys[0], seed % 1000, decoys[0], n))
+                    ordinary[-1][n] = ("enum", v)
+            else:
+                probe(r.pick(names))
+
+    funcs = []
+    # helper functions: parameters live in the function's scope and hide file-scope names only inside it
+    for k in range(r.below(3)):
+        ps = r.sample(names, min(len(names), r.range(1, 3)))
+        vals = [val() for _ in ps]
+        lines.append("void pf_%d(%s) {" % (k, ", ".join("int %s" % p for p in ps)))
+        ordinary.append(dict((p, ("var", v)) for p, v in zip(ps, vals)))
+        tags.append({})
+        body(r.pick([3, 8, 20]))
+        while kinds:
+            close_one()
+        for p in ps:
+            probe(p)
+        lines.append("}")
+        ordinary.pop()
+        tags.pop()
+        funcs.append("pf_%d(%s);" % (k, ", ".join(str(v) for v in vals)))
+    lines.append("int main(void) {")
+    ordinary.append({})
+    tags.append({})
+    for f in funcs:
+        lines.append("  " + f)
+    nops = r.pick([10, 30, 80]) if not big else r.range(400, 1200)
+    body(nops)
+    for n in (names if not big else r.sample(names, 80)):
+        probe(n)
+    while kinds:
+        close_one()
     lines.append("  return bad ? (line %% 250) + 1 : 0;" .replace("%%", "%"))
     lines.append("}")
     return "\n".join(lines) + "\n", probes, big
